@@ -286,6 +286,12 @@ class AlignmentCollector:
         else:
             assignment_storage = self.process_genic(alignment_storage, gene_info, current_region)
 
+        # splice sites of reads and of transcript models are looked up in the stored reference window when the assignments
+        # are loaded again: it must cover the genes (reference transcripts may reach beyond the reads) and every read
+        # (reads may reach beyond the genes, and beyond a split sub-region)
+        gene_info.extend_reference_window(min([gene_info.start] + [a.exons[0][0] for a in assignment_storage]),
+                                          max([gene_info.end] + [a.exons[-1][1] for a in assignment_storage]),
+                                          self.chr_record)
         return gene_info, assignment_storage
 
     def process_intergenic(self, alignment_storage, region):
